@@ -48,10 +48,12 @@ func WaitCond(ctx context.Context, cond *sync.Cond, fn func() bool) error {
 				//noinspection GoDeferInLoop
 				defer cancel()
 				go func() {
+					verifAt("sync.wc.watch.recv", cond, 0)
 					<-ctx.Done()
 					locked := false
 					if l := cond.L; l != nil {
 						locked = true
+						verifAt("sync.wc.watch.lock", cond, 0)
 						l.Lock()
 						defer l.Unlock()
 					}
@@ -65,6 +67,7 @@ func WaitCond(ctx context.Context, cond *sync.Cond, fn func() bool) error {
 		if fn() {
 			return nil
 		}
+		verifAt("sync.wc.wait", cond, 0)
 		cond.Wait()
 	}
 }
